@@ -346,3 +346,20 @@ def _is_code(e, codes, m):
     if isinstance(e, ast.Call) and isinstance(e.func, ast.Attribute) and e.func.attr in ('astype', 'copy'):
         return _is_code(e.func.value, codes, m)
     return False
+
+
+def sampling_guard(repo, chk, oid):
+    """With ratio 1 (the premise of C01 / C03) the estimator must not subsample: the sampling statement is guarded by exactly
+    approximation_factor < 1.0."""
+    fn = repo.func(MI, 'mutual_info_estimator_numba')
+    m = fn.module
+    rp = fn.params[2]
+    par = parents(fn.node)
+    samp = [c for c in calls(fn) if m.dotted(c.func) == f'{MI}.stratified_subsampling']
+    for c in samp:
+        g = par.get(par.get(c))
+        ok = isinstance(g, ast.If) and term_of(fn, g.test, inline=False) in (expected_term(m, f'{rp} < 1.0'), expected_term(m, f'{rp} < 1')) and not g.orelse and par.get(g) is fn.node
+        chk.expect(ok, oid, 'R14', fn.site(g) if isinstance(g, ast.If) else fn.site(c), ast.unparse(g.test) if isinstance(g, ast.If) else '(unconditional sampling)', 'no subsampling at ratio 1',
+                   'the sampling must be guarded by exactly `approximation_factor < 1.0`: otherwise rows are dropped (quota int(n/#values) per stratum) even when no subsampling is requested')
+    if not samp:
+        chk.ok(oid, 'R14', fn.site(), 'no sampling call', 'no subsampling in the estimator')
